@@ -691,7 +691,7 @@ VMLoop:
 			// save current sp to come back to same position
 			handler.sp = vm.sp
 			// remove current error if any
-			vm.curFrame.errHandlers.err = nil
+			handler.err = nil
 			// set ip to finally's position
 			vm.ip = pos - 1
 		case OpUnary:
@@ -830,9 +830,9 @@ func (vm *VM) xOpSetupCatch() {
 		hdl := errHandlers.last()
 		hdl.catch = 0
 
-		if errHandlers.err != nil {
-			value = errHandlers.err
-			errHandlers.err = nil
+		if hdl.err != nil {
+			value = hdl.err
+			hdl.err = nil
 		}
 	}
 
@@ -859,9 +859,10 @@ func (vm *VM) xOpThrow() error {
 	case 0: // system
 		errHandlers := vm.curFrame.errHandlers
 		if errHandlers.hasError() {
+			pending := errHandlers.last().err
 			errHandlers.pop()
 			// do not put position info to error for re-throw after finally.
-			if err := vm.throw(errHandlers.err, true); err != nil {
+			if err := vm.throw(pending, true); err != nil {
 				return err
 			}
 		} else if pos := errHandlers.hasReturnTo(); pos > 0 {
@@ -954,8 +955,10 @@ func (vm *VM) throw(err *RuntimeError, noTrace bool) error {
 }
 
 func (vm *VM) handleThrownError(frame *frame, err *RuntimeError) error {
-	frame.errHandlers.err = err
+	// the pending error belongs to the try statement that handles it, so
+	// that try statements nested in its catch/finally blocks do not see it
 	handler := frame.errHandlers.last()
+	handler.err = err
 
 	// if we have catch>0 goto catch else follow finally (one of them must be set)
 	if handler.catch > 0 {
@@ -1434,15 +1437,15 @@ type errHandler struct {
 	catch    int
 	finally  int
 	returnTo int
+	err      *RuntimeError
 }
 
 type errHandlers struct {
 	handlers []errHandler
-	err      *RuntimeError
 }
 
 func (t *errHandlers) hasError() bool {
-	return t != nil && t.err != nil
+	return t.hasHandler() && t.handlers[len(t.handlers)-1].err != nil
 }
 
 func (t *errHandlers) pop() bool {
